@@ -63,6 +63,8 @@ theorem core_active_default (a e : Int) (k o : Nat) (act : Option (List Int))
   unfold coreAndActive
   rcases hact with rfl | rfl <;> simp [hp, hd, pyRange, castL]
 
+example : coreAndActive 2 2 6 none = .ok (castL (List.range 2), [2, 3]) := by decide
+
 /-- … in particular the two lists are disjoint, have the right sizes and together are `[0, k + n_active_orb)`. -/
 theorem core_active_default_partition (k o : Nat) (x : Int) :
     (x ∈ castL (List.range k) ↔ 0 ≤ x ∧ x < k)
